@@ -17,7 +17,7 @@ RULE = ("All 682 supported commands (exhaustive) x 14 context templates (alone, 
         "letter, digit, blank, brace group, punctuation, '^', '_', another command, itself), the 26 braced commands "
         "and braced near-misses, unknown commands, every special sequence (^ _ >= <= newline \\pagenumber \\totalpage "
         "\\pagefield) and their overlaps, Hypothesis-generated mixed texts; placed in body cells (per-cell "
-        "text_convert matrix; also full per-cell matrices over 1-3 columns, paginated, next to a removed page_by column), title, subline, column header, footnote, source, page header and footer, each with "
+        "text_convert matrix; also full per-cell matrices and 2-3 row recycled patterns over 1-3 columns, paginated, next to a removed page_by column), title, subline, column header, footnote, source, page header and footer, each with "
         "its default text_convert and with the override. Oracle: an independent reference converter written from "
         "the statement and the frozen command table produces the expected RTF fragment; both it and the emitted "
         "run are reduced by the same independent reader to (text runs with super/sub state, line breaks, \\chpgn, "
@@ -178,7 +178,9 @@ def _case(draw):
         n, k = draw(st.integers(2, 10)), draw(st.integers(1, 3))
         return {"where": "body_matrix", "texts": [[draw(_text()) for _ in range(k)] for _ in range(n)],
                 "convert": [[draw(st.booleans()) for _ in range(k)] for _ in range(n)],
-                "nrow": draw(st.sampled_from([3, 4, 6, 100000])), "group": draw(st.sampled_from([None, None, "first", "middle"]))}
+                "nrow": draw(st.sampled_from([3, 4, 6, 100000])), "group": draw(st.sampled_from([None, None, "first", "middle"])),
+                # a short per-row pattern (first p rows of the flag grid, recycled down the table) instead of the full grid
+                "pattern": draw(st.sampled_from([None, None, 2, 3])) if n >= 4 else None}
     if where == "body":
         n = draw(st.integers(1, 12))
         return {"where": "body", "texts": [draw(_text()) for _ in range(n)], "convert": [draw(st.booleans()) for _ in range(n)]}
@@ -201,6 +203,8 @@ def build_recipe(case):
         k = len(texts[0])
         cols = [{"name": f"@N{j}", "dtype": "str", "values": [row[j] for row in texts]} for j in range(k)]
         flags = [list(r) for r in conv]
+        if case.get("pattern"):
+            flags = flags[: case["pattern"]]
         body = {}
         if case.get("group"):
             at = 0 if case["group"] == "first" else min(1, k)
@@ -247,7 +251,9 @@ def check(case) -> Result:
         if len(rows) != len(texts) or any(len(r.cells) != len(texts[0]) for r in rows):
             res.fail("structure", "body_matrix/row_or_cell_count", f"{len(rows)} rows for {len(texts)}; anomalies {d.anom[:2]}")
             return res
-        conts = [(cell, t, c) for r, trow, crow in zip(rows, texts, conv) for cell, t, c in zip(r.cells, trow, crow)]
+        p_ = case.get("pattern")
+        eff_conv = [conv[i % p_] if p_ else conv[i] for i in range(len(conv))]
+        conts = [(cell, t, c) for r, trow, crow in zip(rows, texts, eff_conv) for cell, t, c in zip(r.cells, trow, crow)]
     elif where == "body":
         rows = [b for pg in d.pages for b in pg if isinstance(b, Row)]
         if len(rows) != len(texts):
@@ -333,7 +339,8 @@ def check(case) -> Result:
             nontriv = True
     if where == "body_matrix":
         conv = [c for row in conv for c in row]
-        res.labels = ["paginated" if len(d.pages) > 1 else "one_page", "page_by_removed" if case.get("group") else "no_removed_column"]
+        res.labels = ["paginated" if len(d.pages) > 1 else "one_page", "page_by_removed" if case.get("group") else "no_removed_column",
+                      "recycled_pattern" if case.get("pattern") else "full_grid"]
     else:
         res.labels = []
     res.labels += ["where=" + where, "convert=" + ("mixed" if isinstance(conv, list) and len(set(conv)) > 1 else str(conv if not isinstance(conv, list) else conv[0]))]
@@ -370,6 +377,8 @@ def reductions(case):
     if case.get("where") == "body_matrix":
         if case.get("group"):
             yield dict(case, group=None)
+        if case.get("pattern"):
+            yield dict(case, pattern=None)
         if case.get("nrow") != 100000:
             yield dict(case, nrow=100000)
         return
